@@ -125,3 +125,9 @@ Definition index_rebuild_resets_current : bool := true.
     database opened with a Directory option other than the instance's directory could be closed
     and reopened only once ("leveldb: closed"). *)
 Definition c18_load_registered_current : bool := true.
+
+(** pubsub/pubsubcoreapi WatchPeers diffs each poll against the membership this watcher has
+    reported so far, starting from none (true, fix: commit 15c2c64); false = before: against the
+    topic's member list, which a previous watcher of the same topic (TopicSubscribe hands out
+    the topic it has) left behind: the peers that were there before are never reported. *)
+Definition rewatch_fresh_current : bool := true.
